@@ -351,7 +351,14 @@ def rule_I4(ctx):
     ctx.ob("I4", fa, "an invalid name character inside a file becomes ConstructError", h is not None and "ConstructError" in raises_in(h.body), "", inst="converted:InvalidCharacter")
     # a read beyond a file's chain is a short read
     ga = ctx.fn("smpl_extract/util/fat.py", "FileStream._get_address_given_sector_index", "I4")
-    subs = [n for n in own_nodes(ga) if isinstance(n, ast.Subscript) and dotted(n.value) == "self.sector_list"]
+    from .sem import single_defs as _sd
+    _defs = _sd(ga)
+
+    def _is_chain(e):
+        if dotted(e) == "self.sector_list":
+            return True
+        return isinstance(e, ast.Name) and e.id in _defs and dotted(_defs[e.id]) == "self.sector_list"
+    subs = [n for n in own_nodes(ga) if isinstance(n, ast.Subscript) and _is_chain(n.value) and isinstance(n.ctx, ast.Load)]
     ok = len(subs) == 1
     if ok:
         h = find_try_handler(subs[0], ga, {"IndexError", "LookupError"})
